@@ -1439,6 +1439,15 @@ func init() {
 			a.CProg = []Op{{K: 's', N: n}, {K: 'c'}, {K: 'R'}}
 			p.Abandon = a
 			p.Warmup = []int{0, 1, 30, 63, 64, 65, 100, 130, 200}[g.IntN(9)]
+			// other streams of the connection that begin and end (by their handlers) while
+			// the caller is still sending: whatever the server remembers about the stream
+			// that replied early has to outlast them
+			for i, no := 0, []int{0, 0, 3, 4, 5, 8}[g.IntN(6)]; i < no; i++ {
+				p.Others = append(p.Others, &CallSpec{ID: 10 + i, Kind: KBidi, MsgLen: 10, CProg: []Op{{K: 'c'}, {K: 'R'}}})
+			}
+			if len(p.Others) > 0 && p.Warmup > 30 {
+				p.Warmup = []int{0, 1, 30}[g.IntN(3)] // (short runs: this variant is about what happens during the call)
+			}
 			p.Probe = &CallSpec{ID: 99, Kind: KUnary, ReqLen: 12, RespLen: 12}
 			return p
 		},
